@@ -25,7 +25,7 @@ MAX_WORKERS = 12
 AGG = ["sum", "mean", "min", "max", "count", "size", "std", "var", "first", "last", "median"]
 CUM = ["cumsum", "cummin", "cummax", "cumcount"]
 ROLL = ["rolling_sum", "rolling_mean", "rolling_min", "rolling_max"]
-OTHER = ["agg:sum", "agg:max", "iter", "groups", "ngroups", "ema"]
+OTHER = ["agg:sum", "agg:max", "iter", "groups", "ngroups", "ema", "head", "tail", "nth"]
 METHODS = AGG + CUM + ROLL + OTHER
 INDEX_KINDS = ["default", "shuffled_int", "str", "dup", "multi"]
 KEY_SPECS = ["col", "col2", "array", "series", "level_name", "level_num", "col+array", "col+level", "index_name"]
@@ -156,7 +156,10 @@ def evaluate(case, drv):
     value_cols = list(data)
     rowid = np.arange(n)
     if case["kind"] == "frame":
-        frame = pd.DataFrame({"ka": k1, **data, "kb": k2}, index=index)
+        uses_ka = case["key_spec"] in ("col", "col2", "col+array", "col+level")
+        # a non-numeric column that is not a key is dropped by the engine (numeric_only) and rejected by pandas: keep it out of the frame
+        cols_ = {**({"ka": k1} if (uses_ka or case["kclass"] != "str") else {}), **data, "kb": k2}
+        frame = pd.DataFrame(cols_, index=index)
     else:
         frame = None
         series = pd.Series(data["v0"], index=index, name="v0")
@@ -220,13 +223,19 @@ def evaluate(case, drv):
             g = g[sel_cols]
         return g
 
-    def pandas_gb():
+    def pandas_kw():
+        if by is not None and level is not None:
+            # pandas takes either by or level: the mixture is spelled with a Grouper
+            return {"by": (list(by) if isinstance(by, list) else [by]) + [pd.Grouper(level=level)]}
         kw = {}
         if by is not None:
             kw["by"] = by
         if level is not None:
             kw["level"] = level
-        g = obj.groupby(**kw)
+        return kw
+
+    def pandas_gb():
+        g = obj.groupby(**pandas_kw())
         if sel == "one" and sel_cols:
             g = g[sel_cols[0]]
         elif sel == "list" and sel_cols is not None:
@@ -253,6 +262,10 @@ def evaluate(case, drv):
             return getattr(r, m[8:])()
         if m == "ema":
             return g.ema(alpha=0.5)
+        if m in ("head", "tail"):
+            return getattr(g, m)(2)
+        if m == "nth":
+            return g.nth(1)
         raise ValueError(m)
 
     def core_call(m):
@@ -271,12 +284,35 @@ def evaluate(case, drv):
             return getattr(gb, m)(vals, window=w, min_periods=1)
         if m == "ema":
             return gb.ema(vals, alpha=0.5)
+        if m in ("head", "tail"):
+            return getattr(gb, m)(vals, 2, keep_input_index=True)
+        if m == "nth":
+            return gb.nth(vals, 1, keep_input_index=True)
         raise ValueError(m)
 
     try:
         g = facade()
     except Exception as e:  # noqa
         return bad("a grouped object", f"groupby_fast raised {type(e).__name__}: {str(e)[:200]}")
+    # ---------------- the Lean model of the by / level resolution (GV.Facade.resolve) ----------------
+    if frame is not None and drv is not None:
+        items = []
+        for it in (by if isinstance(by, list) else ([] if by is None else [by])):
+            items.append(f"l:{it}" if isinstance(it, str) else "a:0")
+        lv = [] if level is None else [0]
+        ans = drv.ask(f"resolve cols={','.join(map(str, frame.columns))} idx={','.join('' if x is None else str(x) for x in frame.index.names) if any(x is not None for x in frame.index.names) else ''} "
+                      f"by={','.join(items)} levels={','.join(map(str, lv))}")["model"]
+        base_g = obj.groupby_fast(**({"by": by} if by is not None else {}), **({"level": level} if level is not None else {}))
+        impl = f"keys:{len(resolved)};values:{','.join(map(str, base_g.value_columns))}"
+        if ans == "error":
+            return dict(res, verdict="disagreement", detail=dict(case=case, expected="model resolves the keys", actual=ans))
+        mkeys, mvals = ans.split(";")
+        model = f"keys:{len([k for k in mkeys[5:].split('|') if k])};values:{mvals[7:]}"
+        kinds_ok = all((k.startswith("col:") and k[4:] in key_cols) or not k.startswith("col:") for k in mkeys[5:].split("|") if k)
+        if model != impl or not kinds_ok or base_g.ngroups != len(groups):
+            res.update(verdict="disagreement", detail=dict(case=case, expected=f"model {ans}", actual=f"implementation {impl}, ngroups {base_g.ngroups} (rows give {len(groups)})"))
+            return res
+        res["tags"].append("resolve-model-compared")
     try:
         # ---------------- structural methods ----------------
         if method == "ngroups":
@@ -303,6 +339,10 @@ def evaluate(case, drv):
                 if exp_rows is None:
                     return bad(f"labels {sorted(groups)}", f"unexpected label {lab_c}")
                 exp_part = obj.iloc[exp_rows]
+                if frame is not None and isinstance(part, pd.Series) and part.name in frame.columns:
+                    exp_part = exp_part[part.name]          # a single selected column is iterated as a Series
+                elif frame is not None and isinstance(part, pd.DataFrame):
+                    exp_part = exp_part[list(part.columns)]
                 ok = len(part) == len(exp_part) and list(map(str, part.index)) == list(map(str, exp_part.index)) and \
                     all(same(cv(a), cv(b)) for a, b in zip(np.asarray(part, dtype=object).ravel().tolist(), np.asarray(exp_part, dtype=object).ravel().tolist()))
                 if not ok:
@@ -344,11 +384,12 @@ def evaluate(case, drv):
         ci, cc, ccells = table(core)
     except Exception as e:  # noqa
         core = None
+    res["tags"].append("core-compared" if core is not None else "core-failed")
     if core is not None:
         if gi != ci or len(gcells) != len(ccells) or any(not all(same(a, b) for a, b in zip(x, y)) or len(x) != len(y) for x, y in zip(gcells, ccells)):
             return bad(f"core engine: index {ci[:6]} columns {cc} cells {ccells}", f"facade: index {gi[:6]} columns {gc} cells {gcells}", note="facade != core engine")
     # ---------------- (2) pandas ----------------
-    if method in AGG or method.startswith("agg:") or method in CUM or method.startswith("rolling_"):
+    if (method in AGG and method != "median") or method.startswith("agg:") or method in CUM or method.startswith("rolling_") or method in ("head", "tail", "nth"):
         try:
             pg = pandas_gb()
             if method.startswith("rolling_"):
@@ -357,10 +398,9 @@ def evaluate(case, drv):
                 pos = pd.Series(np.arange(n), index=obj.index)
                 order = getattr(pg.__class__, "__name__", "")
                 pr_frame = pr.to_frame() if isinstance(pr, pd.Series) else pr
-                ppos = obj.groupby(**({"by": by} if by is not None else {}), **({"level": level} if level is not None else {})).apply(lambda d: pd.Series(np.arange(n)[[True] * 0] if False else None)) if False else None
                 # positions: recompute with a rolling over the position column
                 helper = (frame if frame is not None else series.to_frame()).assign(__pos=np.arange(n, dtype=float))
-                hp = helper.groupby(**({"by": by} if by is not None else {}), **({"level": level} if level is not None else {}))["__pos"].rolling(1, min_periods=1).max()
+                hp = helper.groupby(**pandas_kw())["__pos"].rolling(1, min_periods=1).max()
                 positions = [int(x) for x in hp.tolist()]
                 pcols = [str(c) for c in pr_frame.columns if str(c) in [str(x) for x in final_cols]]
                 pcells = []
@@ -372,6 +412,12 @@ def evaluate(case, drv):
                 rows_cmp = True
             else:
                 pr = call(pg, method, "pandas") if not method.startswith("agg:") else pg.agg(method[4:])
+                if method in ("head", "tail", "nth"):
+                    # same rows (index labels in row order) as pandas; pandas keeps the key columns in head/tail of a frame: compare the value columns
+                    if isinstance(pr, pd.DataFrame):
+                        pr = pr[[c for c in pr.columns if c in final_cols]]
+                    if list(map(str, pr.index)) != list(map(str, got.index)):
+                        return bad(f"pandas {method}: rows {list(pr.index)}", f"facade: rows {list(got.index)}", note="selected rows differ from pandas")
                 pi, pc, pcells = table(pr)
                 rows_cmp = method in CUM
                 if method in AGG or method.startswith("agg:"):
@@ -382,7 +428,9 @@ def evaluate(case, drv):
                 pcols = pc
         except Exception as e:  # noqa
             pcells = None
+            res["tags"].append("pandas-failed:" + type(e).__name__)
         if pcells is not None:
+            res["tags"].append("pandas-compared")
             if method in ("size", "cumcount"):
                 pairs = list(zip(gcells[:1], pcells[:1]))
             else:
@@ -400,8 +448,10 @@ def evaluate(case, drv):
                     if rows_cmp:
                         # cumulative / rolling: compared at rows holding a non-null value (null handling at null rows differs by design)
                         col_name = gc[j] if method not in ("cumcount",) else None
-                        if col_name is not None and col_name in data and (case["cols"][int(col_name[1:])]["vals"][i] is None):
-                            continue
+                        if col_name is not None:
+                            src = frame[col_name] if (frame is not None and col_name in frame.columns) else (series if frame is None else None)
+                            if src is not None and pd.isna(src.iloc[i]):
+                                continue
                         if null_key[i]:
                             continue
                     if method in ("std", "var") and (x is None or y is None):
